@@ -38,7 +38,7 @@ pub enum Out {
 }
 
 impl Out {
-    fn draw(uid: u64) -> Out {
+    pub fn draw(uid: u64) -> Out {
         match choice(5) {
             0 | 1 => Out::Accept,
             2 => Out::Reject(format!("rejected-{}", uid)),
@@ -46,7 +46,7 @@ impl Out {
             _ => Out::Modify(choice(2) == 1, choice(2) == 1),
         }
     }
-    fn matches(&self, o: &Outcome) -> bool {
+    pub fn matches(&self, o: &Outcome) -> bool {
         match (self, o) {
             (Out::Accept, Outcome::Accepted(_)) => true,
             (Out::Release, Outcome::Released(_)) => true,
@@ -67,7 +67,7 @@ impl Out {
             message_annotations: None,
         }
     }
-    fn to_v(&self) -> V {
+    pub fn to_v(&self) -> V {
         match self {
             Out::Accept => peer::accepted(),
             Out::Release => peer::released(),
